@@ -12,7 +12,7 @@ TRUSTED = ["rustc nightly MIR + Instance::try_resolve", "parking_lot::Mutex", "s
 
 
 def run(ctx):
-    configs = ["default"] if ctx.tier == "quick" else ["default", "full", "nobg-full", "single:rolling_file_appender,compound_policy"]
+    configs = ["default", "full"] if ctx.tier == "quick" else ["default", "full", "nobg-full", "single:rolling_file_appender,compound_policy"]
     for cfg in configs:
         p = ctx.prog(cfg)
         rolling.rule_lock_span(ctx, p, cfg, "R1")
